@@ -245,7 +245,7 @@ def run_job(job, res, prefixes, budget, deadline):
         if e0 is None: return
         def case():
             return {'op': 'open_sequence', 'meta': job['meta'] if isinstance(job['meta'], str) else list(job['meta']), 'index': job['index'] if isinstance(job['index'], str) else list(job['index']),
-                    'crashes': [c for c in e0['crashes']] + [None] * (4 - len(e0['crashes'])), 'crash_names': [o[1] if o[0] == 'crashed' else None for o in e0['outcomes']], 'scratch': harness.ROOT + '/.cache/c15-scratch'}
+                    'crashes': [c for c in e0['crashes']] + [None] * (4 - len(e0['crashes'])), 'crash_names': [o[1] if o[0] == 'crashed' else None for o in e0['outcomes']], 'scratch': harness.CACHE_DIR + '/c15-scratch'}
         def cand(role, detail): res['candidates'].append({'role': role, 'case': case(), 'detail': detail})
         res['obligations'] += 1
         if kind == 'panic': cand('open-panics', str(env)); return
